@@ -184,6 +184,9 @@ func (g *c12gen) size() int {
 	if g.rng.Intn(150) == 0 {
 		return 1 << 20
 	}
+	if g.rng.Intn(60) == 0 { // around a 64 KiB bulk threshold, and 256 KiB
+		return []int{65535, 65536, 65537, 262144}[g.rng.Intn(4)]
+	}
 	s := c12Sizes[g.rng.Intn(len(c12Sizes))]
 	if g.rng.Chance(15) {
 		s += g.rng.Intn(3) - 1 // one off the boundary
